@@ -55,6 +55,10 @@ class BaseRequest:
             todelete = ('forms', 'files', 'params', 'post', 'json', 'body')
         elif key == 'QUERY_STRING':
             todelete = ('query', 'params')
+        elif key == 'CONTENT_LENGTH':
+            todelete = ('content_length', 'forms', 'files', 'params', 'post', 'json')
+        elif key == 'CONTENT_TYPE':
+            todelete = ('content_type', 'ctype', 'forms', 'files', 'params', 'post', 'json')
         elif key.startswith('HTTP_'):
             todelete = ('headers', 'cookies')
         env = request.environ
